@@ -12,7 +12,7 @@ assert subprocess.run("git -C /repo status --porcelain", shell=True, capture_out
 rows = []
 for d in sorted(glob.glob(ROOT + "/seeded/*/")):
     name = os.path.basename(d.rstrip("/"))
-    if flt not in name: continue
+    if ("--exact" in sys.argv and flt != name) or flt not in name: continue
     meta = json.load(open(d + "meta.json"))
     checks = [meta["property"]] + [c for c in extra if c != meta["property"]] + [c for c in meta.get("also_check", []) if c != meta["property"]]
     r = subprocess.run(f"git -C /repo apply {d}patch.diff", shell=True, capture_output=True, text=True)
